@@ -25,10 +25,20 @@ StepOk(o, A) == /\ \A rt \in Routes : o.r[rt] = A /\ o.c[rt] = A
 ProgOk(e) == /\ Len(e.obs) = Len(e.calls) + 1
              /\ StepOk(e.obs[1], Symbols(e.n0))
              /\ \A k \in 1 .. Len(e.calls) : StepOk(e.obs[k + 1], Apply(e.obs[k].r.idx, e.calls[k]))
+\* Display forwards the caller's format parameters to every element, whatever the layout: with "{:+8.1}" an element
+\* a/8 (a odd, so no tie) prints as its value rounded to one decimal, with sign, in (at least) 8 characters -
+\* the padded tokens are split on blanks, so the logged length is that of sign + digits
+RoundTenths(a) == IF a >= 0 THEN (a * 10 + 4) \div 8 ELSE 0 - ((0 - a) * 10 + 4) \div 8
+DigitsOf(t) == IF t < 100 THEN 4 ELSE IF t < 1000 THEN 5 ELSE 6      \* "+d.d", "+dd.d", "+ddd.d"
+DisplayFmtOk(e) == /\ Len(e.obs) = e.n
+                   /\ \A i \in 1 .. e.n : /\ Len(e.obs[i]) = e.n
+                                          /\ \A j \in 1 .. e.n : /\ e.obs[i][j][1] = 100 * RoundTenths(e.a[i][j])
+                                                                 /\ e.obs[i][j][2] = DigitsOf(Abs(RoundTenths(e.a[i][j])))
 RevRows(A) == [i \in 1 .. Len(A) |-> [j \in 1 .. Len(A) |-> A[i][Len(A) + 1 - j]]]
 RevCols(A) == [i \in 1 .. Len(A) |-> [j \in 1 .. Len(A) |-> A[Len(A) + 1 - i][j]]]
 Ok(e) == CASE e.op = "matprog" -> ProgOk(e)
            [] e.op = "map_lines" -> e.obs = (IF e.how = "rows" THEN RevRows(e.a) ELSE RevCols(e.a))
+           [] e.op = "display_fmt" -> DisplayFmtOk(e)
            [] e.op = "diag" -> e.obs = (CASE e.how = "diagonal" -> Diag(e.a) [] e.how = "trace" -> <<TraceM(e.a)>> [] e.how = "counts" -> <<e.n, e.n>>)
 Init == l = 1
 Step(name) ==
@@ -40,7 +50,8 @@ Step(name) ==
 MatProg == Step("matprog")
 MapLines == Step("map_lines")
 DiagA == Step("diag")
-Next == MatProg \/ MapLines \/ DiagA
+DisplayFmt == Step("display_fmt")
+Next == MatProg \/ MapLines \/ DiagA \/ DisplayFmt
 Accepted == IF TLCGet("stats").diameter - 1 = Len(Rec) THEN TRUE
             ELSE PrintT(ToJson([tag |-> "REJECTED_AT", l |-> TLCGet("stats").diameter])) /\ FALSE
 =============================================================================
